@@ -3582,19 +3582,20 @@ coap_handle_response_send_block(coap_session_t *session, coap_pdu_t *sent,
           if (!pdu)
             goto fail_body;
 
-          coap_update_option(pdu, lg_xmit->option,
-                             coap_encode_var_safe(buf, sizeof(buf),
-                                                  (block.num << 4) |
-                                                  (block.m << 3) |
-                                                  block.szx),
-                             buf);
-
-          if (!coap_add_block(pdu,
+          if (!coap_update_option(pdu, lg_xmit->option,
+                                  coap_encode_var_safe(buf, sizeof(buf),
+                                                       (block.num << 4) |
+                                                       (block.m << 3) |
+                                                       block.szx),
+                                  buf) ||
+              !coap_add_block(pdu,
                               lg_xmit->length,
                               lg_xmit->data,
                               block.num,
-                              block.szx))
+                              block.szx)) {
+            coap_delete_pdu(pdu);
             goto fail_body;
+          }
           if (coap_send_internal(session, pdu) == COAP_INVALID_MID)
             goto fail_body;
         }
